@@ -44,7 +44,13 @@ ReadReason(e) ==
       FloatOK(v) == v \in F
       spec == Denote(e.bytes, e.mode, FloatOK)
       real == ToItems(e.items)
-  IN IF e.haswant /\ NormFs(spec) # NormFs(ToItems(e.want)) THEN "writer-file-not-decoded-by-spec-reader"
+      cln  == Denote(e.clean, e.mode, FloatOK)
+      \* SAM isolation (C11): the corrupted file differs from the clean one in exactly the item at position iso, an error
+      Isolated == /\ Len(spec) = Len(cln) /\ e.iso <= Len(cln)
+                  /\ cln[e.iso] # ERR /\ spec[e.iso] = ERR
+                  /\ \A i \in 1..Len(cln) : i # e.iso => spec[i] = cln[i]
+  IN IF e.iso > 0 /\ ~Isolated THEN "CERT-not-a-single-line-corruption"
+     ELSE IF e.haswant /\ NormFs(spec) # NormFs(ToItems(e.want)) THEN "writer-file-not-decoded-by-spec-reader"
      ELSE IF e.panic THEN "reader-panic-or-unbounded"
      ELSE IF NormFs(real) # NormFs(spec) THEN "reader-items-differ-from-spec"
      ELSE IF e.haswant /\ e.items # e.want THEN "round-trip-differs"
